@@ -402,13 +402,7 @@ func checkEngineReturns(c *Ctx, e *Engine) {
 			key := fmt.Sprintf("%s#return[b%d]", e.Name, rp.Ret.Block().Index)
 			if r1.IsConst("nil") {
 				nsucc++
-				ok := r0.Op == "call" && strings.HasSuffix(r0.Name, "clipResults") && len(r0.Args) == 2 && strings.HasSuffix(r0.Args[0].String(), ".MinTTL")
-				if ok {
-					// second arg is the slot table
-					if v := r0.Args[1].Val; v != nil {
-						ok = e.isTable(c.P, v)
-					}
-				}
+				ok := clipOfTable(c, e, r0, 0)
 				R.Check(ok, "R03.3", key, rp.Ret.Pos(), e.Name, "success return = clipResults(MinTTL, table)", "success return is "+r0.String()+", not clipResults(MinTTL, table)")
 				// validate succeeded on this path
 				f1, s1 := atomTrue(rp.Atoms, func(t *core.Term) bool {
@@ -421,6 +415,58 @@ func checkEngineReturns(c *Ctx, e *Engine) {
 		}
 		R.Floor("R03.3:success-returns:"+e.Name, nsucc, 1)
 	}
+}
+
+// clipOfTable: r0 is clipResults(<..>.MinTTL, <the slot table>), directly or as what a helper of the engine's package returns on
+// every one of its paths (a method of a table type: `return clipResults(minTTL, t.slots)`), its conditions lifted to the call site.
+func clipOfTable(c *Ctx, e *Engine, r0 *core.Term, depth int) bool {
+	if r0 == nil || r0.Op != "call" {
+		return false
+	}
+	if strings.HasSuffix(r0.Name, "clipResults") && len(r0.Args) == 2 {
+		if !strings.HasSuffix(r0.Args[0].String(), ".MinTTL") {
+			return false
+		}
+		if v := r0.Args[1].Val; v != nil {
+			return e.isTable(c.P, v)
+		}
+		return true
+	}
+	site, isCall := r0.Val.(*ssa.Call)
+	if !isCall || depth > 2 {
+		return false
+	}
+	h := site.Common().StaticCallee()
+	if h == nil || len(h.Blocks) == 0 || !e.inScope(h) || h.Signature.Results().Len() != 1 {
+		return false
+	}
+	rps, complete := core.ReturnPaths(c.P, h, 200)
+	if !complete || len(rps) == 0 {
+		return false
+	}
+	for _, rp := range rps {
+		if rp.Ret.Block().Comment == "recover" {
+			continue
+		}
+		inner := rp.Results[0]
+		if inner.Op != "call" {
+			return false
+		}
+		if strings.HasSuffix(inner.Name, "clipResults") && len(inner.Args) == 2 {
+			// the table is judged where it is read (inside the helper), MinTTL where it is supplied (at the call site)
+			if v := inner.Args[1].Val; v == nil || !e.isTable(c.P, v) {
+				return false
+			}
+			if !strings.HasSuffix(liftThrough(c.P, inner.Args[0], site).String(), ".MinTTL") {
+				return false
+			}
+			continue
+		}
+		if !clipOfTable(c, e, liftThrough(c.P, inner, site), depth+1) {
+			return false
+		}
+	}
+	return true
 }
 
 func isCallToSuffix(t *core.Term, suffix string) bool {
